@@ -21,7 +21,7 @@ import (
 
 // praw: one entry of a proposed EnabledConversionPairs value, possibly malformed
 type praw struct {
-	K string `json:"k"` // ctr | zero | short (19 bytes)
+	K string `json:"k"` // ctr | zero | short (19 bytes) | pad21 | pad32 (the 20 bytes left-padded with zeros to 21 / 32 bytes)
 	C int    `json:"c"` // contract id (>= noCodeBase: an address without code)
 	D int    `json:"d"` // denom index; negative: the (-1-d)-th invalid denom string
 }
@@ -109,6 +109,12 @@ func (w *world) rawPairs(ps []praw) evmutiltypes.ConversionPairs {
 			bz = make([]byte, 20)
 		case "short":
 			bz = w.contractAddr(p.C).Bytes()[:19]
+		case "pad21":
+			// one zero byte in front: ConversionPair.GetAddress (common.BytesToAddress) crops it away again
+			bz = append(make([]byte, 1), w.contractAddr(p.C).Bytes()...)
+		case "pad32":
+			// the address as a left-padded 32 byte ABI word
+			bz = append(make([]byte, 12), w.contractAddr(p.C).Bytes()...)
 		default:
 			bz = w.contractAddr(p.C).Bytes()
 		}
@@ -305,7 +311,9 @@ func (g *gen) amount(avail *big.Int, unit *big.Int, allowNeg bool) *big.Int {
 	r := g.r
 	x := new(big.Int)
 	one := big.NewInt(1)
-	switch r.Pick(2, 14, 12, 5, 6, 16, 22, 3, 2, 18) {
+	switch r.Pick(2, 13, 12, 5, 6, 14, 18, 3, 2, 16, 9) {
+	case 10: // the machine-word boundaries: 2^63, 2^64, 2^128 (and 20*10^18, 10^30), preferably ones the balance covers
+		x.Set(g.boundary(avail, unit))
 	case 0:
 		x.SetInt64(0)
 	case 1: // small
@@ -351,7 +359,7 @@ func (g *gen) amount(avail *big.Int, unit *big.Int, allowNeg bool) *big.Int {
 		if unit.Cmp(one) > 0 && avail.Cmp(unit) >= 0 {
 			q := new(big.Int).Div(avail, unit)
 			if q.Cmp(one) > 0 && r.Chance(1, 2) {
-				q.SetInt64(1 + r.Int63n(q.Int64()))
+				q.Add(one, bigBelow(r, q))
 			}
 			x.Mul(q, unit)
 			if r.Chance(1, 2) {
@@ -371,6 +379,61 @@ func (g *gen) amount(avail *big.Int, unit *big.Int, allowNeg bool) *big.Int {
 	}
 	if !allowNeg && x.Sign() < 0 {
 		x.SetInt64(0)
+	}
+	return x
+}
+
+// bigBelow draws from [0, n) (n > 0)
+func bigBelow(r *Rng, n *big.Int) *big.Int {
+	return new(big.Int).Mod(r.BigBits(n.BitLen()+16), n)
+}
+
+func pow2(n uint) *big.Int { return new(big.Int).Lsh(big.NewInt(1), n) }
+
+// wordBoundaries: where an amount stops fitting int64 / uint64 / two words, and two round figures
+// above 2^64 (20 tokens of an 18-decimal asset, 10^30)
+var wordBoundaries = []*big.Int{pow2(63), pow2(64), pow2(128),
+	new(big.Int).Mul(big.NewInt(20), Pow10(18)), Pow10(30)}
+
+// boundary draws an amount at or just around a word boundary: the boundary itself, one less, a few
+// more, plus dust below one unit, plus whole units; boundaries the balance covers are preferred.
+func (g *gen) boundary(avail, unit *big.Int) *big.Int {
+	r := g.r
+	var cov []*big.Int
+	for _, b := range wordBoundaries {
+		if b.Cmp(avail) <= 0 {
+			cov = append(cov, b)
+		}
+	}
+	b := wordBoundaries[r.Intn(len(wordBoundaries))]
+	if len(cov) > 0 && r.Chance(5, 6) {
+		b = cov[r.Intn(len(cov))]
+	}
+	x := new(big.Int).Set(b)
+	switch r.Pick(25, 20, 15, 20, 20) {
+	case 0:
+	case 1:
+		x.Sub(x, big.NewInt(int64(1+r.Intn(2))))
+	case 2:
+		x.Add(x, big.NewInt(int64(1+r.Intn(3))))
+	case 3: // dust of less than 10^10 on top
+		x.Add(x, big.NewInt(r.Int63n(9_999_999_999)))
+	default: // the next whole number of units at or above the boundary, with or without dust
+		m := new(big.Int).Mod(x, unit)
+		if m.Sign() > 0 {
+			x.Add(x, new(big.Int).Sub(unit, m))
+		}
+		x.Add(x, new(big.Int).Mul(unit, big.NewInt(int64(r.Intn(3)))))
+		if r.Chance(1, 2) {
+			x.Add(x, big.NewInt(r.Int63n(9_999_999_999)))
+		}
+	}
+	// an amount above the balance is refused whatever else is wrong with it: mostly stay within
+	if x.Cmp(avail) > 0 && avail.Cmp(b) >= 0 && r.Chance(3, 4) {
+		x.Set(avail)
+		if r.Chance(1, 2) {
+			x.Sub(x, new(big.Int).Mod(x, unit))
+		}
 	}
 	return x
 }
@@ -659,7 +722,17 @@ func (g *gen) single() op {
 		}
 		o.R = g.anyAcc()
 		x := new(big.Int)
-		switch r.Pick(30, 30, 25, 10, 5) {
+		switch r.Pick(27, 27, 22, 10, 5, 9) {
+		case 5: // balances at and above the word boundaries (2^63, 2^64, 2^128, 20*10^18, 10^30)
+			x.Set(wordBoundaries[r.Intn(len(wordBoundaries))])
+			switch r.Intn(4) {
+			case 0:
+				x.Sub(x, big.NewInt(1))
+			case 1:
+				x.Add(x, big.NewInt(r.Int63n(9_999_999_999)))
+			case 2:
+				x.Add(x, bigBelow(r, x))
+			}
 		case 0:
 			x.SetInt64(r.Int63n(1000))
 		case 1:
@@ -842,8 +915,8 @@ func (g *gen) params() op {
 		at := r.Intn(len(o.Ts) + 1)
 		o.Ts = append(o.Ts[:at], append([]traw{e}, o.Ts[at:]...)...)
 	}
-	kind := r.Intn(12)
-	if len(o.Ps) == 0 && kind <= 2 {
+	kind := r.Intn(15)
+	if len(o.Ps) == 0 && (kind <= 2 || kind >= 12) {
 		kind = 3 + r.Intn(3)
 	}
 	if len(o.Ts) == 0 && (kind == 6 || kind == 7) {
@@ -884,8 +957,26 @@ func (g *gen) params() op {
 		insertP(praw{K: "ctr", C: e.C, D: d2})
 	case 3:
 		insertP(praw{K: "zero", D: 6})
-	case 4:
-		insertP(praw{K: "short", C: noCodeBase + r.Intn(3), D: 6})
+	case 4: // an address of 19, 21 or 32 bytes
+		insertP(praw{K: []string{"short", "pad21", "pad32"}[r.Intn(3)], C: noCodeBase + r.Intn(3), D: 6})
+	case 12, 13:
+		// the contract of an enabled pair a second time, under another denom, its address one byte short
+		// or left-padded with zeros to 21 / 32 bytes: as raw bytes it differs from the 20-byte entry, but
+		// ConversionPair.GetAddress crops the padding away again
+		e := o.Ps[r.Intn(len(o.Ps))]
+		d2 := []int{3, 4, 6, 5, pairDenom[(e.C+1)%nPair]}[r.Pick(3, 2, 2, 1, 1)]
+		var keep []praw
+		for _, p := range o.Ps {
+			if p.D != d2 {
+				keep = append(keep, p)
+			}
+		}
+		o.Ps = append([]praw{}, keep...)
+		insertP(praw{K: []string{"pad32", "pad21", "short"}[r.Pick(3, 2, 1)], C: e.C, D: d2})
+	case 14:
+		// the entry of an enabled pair itself with its address in a wrong length (same denom)
+		at := r.Intn(len(o.Ps))
+		o.Ps[at].K = []string{"pad32", "pad21", "short"}[r.Intn(3)]
 	case 5:
 		insertP(praw{K: "ctr", C: noCodeBase + r.Intn(3), D: -1 - r.Intn(len(invalidDenoms))})
 	case 6: // a token denom twice (under another symbol)
